@@ -202,7 +202,10 @@ func (c *GroupCoordinator) JoinGroup(ctx context.Context, req *kmsg.JoinGroupReq
 
 	resp := kmsg.NewPtrJoinGroupResponse()
 	resp.Generation = state.generationID
-	resp.Protocol = &state.protocolName
+	// Copied, not pointed into the group state: the reply is encoded after c.mu
+	// is released, while another member's JoinGroup may rewrite the name.
+	protocolName := state.protocolName
+	resp.Protocol = &protocolName
 	resp.LeaderID = state.leaderID
 	resp.MemberID = memberID
 	resp.ErrorCode = protocol.REBALANCE_IN_PROGRESS
@@ -271,11 +274,11 @@ func (c *GroupCoordinator) SyncGroup(ctx context.Context, req *kmsg.SyncGroupReq
 
 	resp := kmsg.NewPtrSyncGroupResponse()
 	resp.ErrorCode = protocol.NONE
-	if state.protocolType != "" {
-		resp.ProtocolType = &state.protocolType
+	if protocolType := state.protocolType; protocolType != "" {
+		resp.ProtocolType = &protocolType
 	}
-	if state.protocolName != "" {
-		resp.Protocol = &state.protocolName
+	if protocolName := state.protocolName; protocolName != "" {
+		resp.Protocol = &protocolName
 	}
 	resp.MemberAssignment = encodeAssignment(assignments)
 
